@@ -544,12 +544,44 @@ func specRound(x float64) float64 {
 	return vrt.IteFloat64(keep, x, r)
 }
 
+// strNumClasses attaches the two recorded deviations of the string -> number conversion
+// (numberFromString = strconv.ParseFloat(strings.TrimSpace(s))) to a string operand:
+// VT/FF are stripped like white space, and every spelling strconv accepts beyond the
+// XPath Number production ('+1', '1e3', '.5e1', 'inf', 'Infinity', 'nan', hex floats)
+// converts to a number instead of NaN.
+func strNumClasses(s string) {
+	isGoBlank := func(c byte) bool { return c == ' ' || c == '\t' || c == '\n' || c == '\r' || c == '\v' || c == '\f' }
+	i, j := 0, len(s)
+	vtff := false
+	for i < j && isGoBlank(s[i]) {
+		if s[i] == '\v' || s[i] == '\f' {
+			vtff = true
+		}
+		i++
+	}
+	for j > i && isGoBlank(s[j-1]) {
+		if s[j-1] == '\v' || s[j-1] == '\f' {
+			vtff = true
+		}
+		j--
+	}
+	t := s[i:j]
+	_, err := strconv.ParseFloat(t, 64)
+	goAccepts := err == nil
+	xNumber := !vrt.IsNaN(specStrToNum(t))
+	vrt.Class("C01-number-of-string-strips-vt-ff", vtff && goAccepts && xNumber)
+	vrt.Class("C01-number-of-string-accepts-go-float-forms", goAccepts && !xNumber)
+}
+
 // VerifH_C01_NumFuncs: number() floor() ceiling() round() over every scalar kind.
 func VerifH_C01_NumFuncs() {
 	L := vrt.Param("L", 2)
 	f := vrt.Choice("f", 4)
 	a := genOperand("a", scalarKinds, numSymbolic, L)
 	x := a.specNum()
+	if a.kind == kLit {
+		strNumClasses(a.s)
+	}
 	var text string
 	var want float64
 	switch f {
@@ -609,10 +641,16 @@ func VerifH_C01_NumberPadding() {
 	}
 	l, lOK, lGo := pad("left")
 	r, rOK, rGo := pad("right")
-	s := l + "7" + r
-	isNum := vrt.And(lOK, rOK)
+	// the numeral itself: an XPath Number, or a spelling only strconv accepts
+	numeral := []string{"7", "+7", "7e0", "0x7p0"}[vrt.Choice("numeral", 4)]
+	goForm := numeral != "7"
+	s := l + numeral + r
+	isNum := vrt.And(!goForm, vrt.And(lOK, rOK))
+	goTrims := vrt.And(vrt.Or(lOK, lGo), vrt.Or(rOK, rGo)) // both paddings are stripped by strings.TrimSpace
 	// known: VT and FF are stripped too (strings.TrimSpace)
-	vrt.Class("C01-number-of-string-strips-vt-ff", vrt.And(vrt.Or(lGo, rGo), vrt.And(vrt.Or(lOK, lGo), vrt.Or(rOK, rGo))))
+	vrt.Class("C01-number-of-string-strips-vt-ff", vrt.And(!goForm, vrt.And(vrt.Or(lGo, rGo), goTrims)))
+	// known: the conversion is strconv.ParseFloat
+	vrt.Class("C01-number-of-string-accepts-go-float-forms", vrt.And(goForm, goTrims))
 	form := vrt.Choice("form", 3)
 	text := []string{"number(a)", "a + 1", "a = 7"}[form]
 	vrt.Reach("c01.numberpadding")
